@@ -20,9 +20,12 @@ ASSUME = [
 ]
 
 
-def stream(rng, w, h, first, n, reqs, pace_ms=2, procs=0):
+def stream(rng, w, h, first, n, reqs, pace_ms=2, procs=0, clears=7):
     payload, pace, vals = bytearray(), [], []
     for i in range(first, first + n):
+        if clears and i > first + 3 and (i - first) % clears == 0:
+            payload += b"clear"          # camera reset between two frames: snapshots must keep returning the latest frame
+            pace.append(len(payload)); vals.append(0)
         payload += fam_e2e.lepton_frame(w, h, 1000 + i, 1000 + i, 60000 + i * 100)
         pace.append(len(payload)); vals.append(1000 + i)
     fs = 640 + 2 * w * h
@@ -37,7 +40,7 @@ def stream(rng, w, h, first, n, reqs, pace_ms=2, procs=0):
         dbus.append(d)
     return dict(header=dict(ResX=w, ResY=h, FPS=9, FrameSize=fs, Model="lepton3", Brand="flir", CameraSerial=4, Firmware="2.0.1"),
                 payload=base64.b64encode(bytes(payload)).decode(), cuts=[], settle_ms=80, pace_at=pace, pace_vals=vals,
-                pace_ms=pace_ms, dbus=dbus, gomaxprocs=procs), [1000 + i for i in range(first, first + n)]
+                pace_ms=pace_ms, dbus=dbus, gomaxprocs=procs, frame_vals=[v for v in vals if v]), [1000 + i for i in range(first, first + n)]
 
 
 def race_pairs(out):
@@ -168,9 +171,11 @@ def collect(events, evs, sent, conns, check_pipeline):
             vals, lb = e["reply"]["values"], 0
             if e.get("same") and e.get("cnt", 0) >= 1 and len(vals) == 1:
                 for c in conns:
-                    pv = c["pace_vals"]
+                    pv = c["frame_vals"]
                     if vals[0] in pv and e["cnt"] <= len(pv):
                         lb = pv[e["cnt"] - 1]
+                if vals[0] == 0:
+                    lb = 1      # an empty image although cnt >= 1 frames had completed on this processor
             events.append(dict(ev="snap", values=vals, lb=lb, sent=sent, conn=e["conn"], cnt=e.get("cnt", 0)))
         elif e["member"] == "CameraInfo" and "reply" in e:
             hdr = conns[e["conn"]]["header"]
